@@ -277,5 +277,39 @@ int cmd_c14(int argc, char **argv) {
     }
     return 0;
   }
-  fprintf(stderr, "usage: c14 prog <file> | c14 rand <nhist> <maxlen>\n"); return 2;
+  if (argc >= 2 && strcmp(argv[0], "fuzz") == 0) {
+    /* damaged files: a well-formed file of 1..4 definitions with one to three bytes deleted, duplicated or replaced, read into a user array that
+     * already holds two crystals (and, every eighth time, into the built-in collection).  Whatever the reader makes of the file, the statement
+     * fixes what may happen to the collection: refused => unchanged; accepted => old members kept, names sorted and unique, every listed name retrievable. */
+    int n = atoi(argv[1]); static const char REP[] = "#SUCEL 0123456789.-+\n\t\r\0xZ"; char path[300];
+    for (int it = 0; it < n; it++) {
+      fflush(OUT); pid_t pid = fork();
+      if (pid == 0) {
+        RNG = RNG * 6364136223846793005ULL + (uint64_t)it * 1442695040888963407ULL + 1;
+        int tgt_builtin = (it % 8 == 7); Crystal_Array *ua = tgt_builtin ? NULL : Crystal_ArrayInit(rndint(0, 3), NULL);
+        int ids[6]; for (int i = 0; i < 6; i++) ids[i] = random_entry(30);
+        if (!tgt_builtin) for (int i = 0; i < 2; i++) { Crystal_Struct c; char nb[24]; fill_struct(&c, &pool[ids[i]], nb); Crystal_AddCrystal(&c, ua, NULL); }
+        int k = rndint(1, 4); snprintf(path, sizeof path, "%s/xrl-c14f-%d.dat", scratch, (int)getpid()); write_file(path, 0, 0, k, ids + 2 - (rndint(0, 3) == 0));
+        FILE *f = fopen(path, "rb"); static char buf[1 << 16]; size_t len = fread(buf, 1, sizeof buf - 8, f); fclose(f);
+        for (int m = rndint(1, 3); m > 0 && len > 2; m--) { size_t pos = (size_t)rndint(0, (int)len - 1); int how = rndint(0, 2);
+          if (how == 0) { memmove(buf + pos, buf + pos + 1, len - pos - 1); len--; } else if (how == 1) { memmove(buf + pos + 1, buf + pos, len - pos); len++; } else buf[pos] = REP[rndint(0, (int)sizeof REP - 2)]; }
+        f = fopen(path, "wb"); fwrite(buf, 1, len, f); fclose(f);
+        int n0 = -1, n1 = -1; char **before = Crystal_GetCrystalsList(ua, &n0, NULL);
+        extern Crystal_Array Crystal_arr; Crystal_Array *a = tgt_builtin ? &Crystal_arr : ua; int alloc0 = a->n_alloc;
+        xrl_error *e = NULL; int rv = Crystal_ReadFile(path, ua, &e); unlink(path);
+        char **after = Crystal_GetCrystalsList(ua, &n1, NULL);
+        fprintf(OUT, "{\"k\":\"fuzz\",\"it\":%d,\"builtin\":%d,\"ok\":%d,\"err\":%d,\"n\":%d,\"alloc\":[%d,%d],\"before\":[", it, tgt_builtin, rv, e != NULL, a->n_crystal, alloc0, a->n_alloc);
+        for (int i = 0; i < n0; i++) { if (i) fputc(',', OUT); jstr(before[i]); } fputs("],\"after\":[", OUT);
+        int allget = 1; for (int i = 0; i < n1; i++) { if (i) fputc(',', OUT); jstr(after[i]); Crystal_Struct *c = Crystal_GetCrystal(after[i], ua, NULL); if (!c || strcmp(c->name, after[i])) allget = 0; Crystal_Free(c); }
+        fprintf(OUT, "],\"allget\":%d}\n", allget); xrl_clear_error(&e);
+        for (int i = 0; i < n0; i++) xrlFree(before[i]); xrlFree(before); for (int i = 0; i < n1; i++) xrlFree(after[i]); xrlFree(after); if (ua) Crystal_ArrayFree(ua);
+        fflush(OUT); _exit(0);
+      }
+      int st; waitpid(pid, &st, 0);
+      if (!(WIFEXITED(st) && WEXITSTATUS(st) == 0)) fprintf(OUT, "{\"k\":\"fuzzcrash\",\"it\":%d,\"sig\":%d}\n", it, WIFSIGNALED(st) ? WTERMSIG(st) : -WEXITSTATUS(st));
+      fflush(OUT);
+    }
+    return 0;
+  }
+  fprintf(stderr, "usage: c14 prog <file> | c14 rand <nhist> <maxlen> | c14 fuzz <n>\n"); return 2;
 }
